@@ -36,9 +36,6 @@ def adv_tag(p0, p1, p2, a, b, who, d1, d2):
             sch._process_current_schedule({t1: m1, t2: m2}, {}, owner)
             for _ in range(5):
                 env.run(env.now + 1)
-                t = cluster_invariant(c, False)
-                if t:
-                    return t
         except (RuntimeError, ValueError, KeyError):
             pass                              # "rejected with an error" is an allowed outcome; what already ran is still checked
         for t in mon.tags:
@@ -109,9 +106,6 @@ def race_tag(p0, p1, p2, a, b, g, order, d1):
                 env.process(actor(fn))
             for _ in range(6):
                 env.run(env.now + 1)
-                t = cluster_invariant(c, False)
-                if t:
-                    return t
         except (RuntimeError, ValueError):
             return 'C01/honest-proposal-rejected-with-error'
         for t in mon.tags:
